@@ -563,6 +563,36 @@ def run(run, pid, tier, seed, replay=None):
                 run.shape(h[:16])
             if len(run.samples) < 4 and cls in ("dict-mutant", "neighbourhood"):
                 run.sample({"kind": kind, "class": cls, "src": text[:300], "outcome": r["outcome"], "steps": r["steps"], "peak_heap": r["peak"], "diagnostics": r["n_diag"]})
+    # AddressSanitizer pass (thorough tier): the same inputs through the driver built with -Zsanitizer=address. The
+    # unsafe code on the compile path lives in the dependencies (cssparser, compact_str, sourcemap, ...); a report
+    # means memory unsafety was reached through the safe API by an in-domain input. Stack exhaustion and resource
+    # limits under the sanitizer's larger frames are not verdicts (the two uninstrumented profiles decide those).
+    if tier == "thorough" and not replay and os.environ.get("VERIF_NO_ASAN") != "1":
+        asan = common.build_gev_asan()
+        if asan is None:
+            run.extra["asan"] = {"status": "not available on this machine (see log); pass not performed"}
+        else:
+            env = dict(os.environ)
+            env["ASAN_OPTIONS"] = "abort_on_error=1:halt_on_error=1:detect_leaks=0:allocator_may_return_null=1:detect_stack_use_after_return=0"
+            results = common.run_gev(asan, "total", payload, cpu_per_case=240, mem_bytes=0, wall_s=5400, env=env)
+            st = {"inputs": 0, "reports": 0, "other_crashes_not_judged": 0, "inconclusive": 0}
+            for i, (kind, cls, text, extra, h) in meta.items():
+                r = results.get(i)
+                if r is None or r.get("inconclusive"):
+                    st["inconclusive"] += 1
+                    continue
+                st["inputs"] += 1
+                if r.get("crash"):
+                    err = r["crash"].get("stderr") or ""
+                    if "AddressSanitizer" in err and "stack-overflow" not in err and "out of memory" not in err and "allocation-size-too-big" not in err:
+                        st["reports"] += 1
+                        m = re.search(r"ERROR: AddressSanitizer: ([a-z-]+)", err)
+                        run.violation(f"AddressSanitizer: {m.group(1) if m else 'report'} on a {kind} input ({cls}, {len(text)} bytes)", {"kind": kind, "class": cls, "profile": "asan", "src": text if len(text) < 6000 else text[:3000] + "…" + text[-500:], "extra": extra, "report": err[-3000:]})
+                    else:
+                        st["other_crashes_not_judged"] += 1
+            run.evaluations += st["inputs"]
+            run.count("asan_inputs", st["inputs"])
+            run.extra["asan"] = st
     expo = {}
     for (kind, name, profile), pts in ladders.items():
         if len(pts) >= 3:
